@@ -34,7 +34,7 @@ PROPS = {
     "C07": {"units": ALL_PARSER, "assumes": ["A1", "A2", "A3", "A4", "A5", "A6", "A9", "V"],
             "claim": "no arithmetic overflow, out-of-bounds access or failing unwrap, and termination (decreases) of every function under contract, for all event streams"},
     "C08": {"units": ALL_PARSER, "assumes": ["A1", "A2", "A3", "A4", "A5", "A6", "A9", "V"],
-            "claim": "Ok/Err verdict of the parser equals the independent stream-order oracle scan() over the same events"},
+            "claim": "Ok/Err verdict equals the stream-order oracle scan(); the error variant equals scan_kind() (first fault in stream order); syntax errors carry the reader position"},
     "C01": {"units": ALL_PARSER, "assumes": ["A1", "A2", "A3", "A4", "A5", "A6", "A8", "A9", "H", "V"],
             "claim": "T1 + one-step soundness theorems (theorem_occurrence_start/_empty, theorem_c15) over the ghost algorithm"},
     "C06": {"units": ALL_PARSER, "assumes": ["A1", "A2", "A3", "A4", "A5", "A6", "A8", "A9", "H", "V"],
